@@ -437,8 +437,11 @@ def check_auipc(report, facts, rule_adj, rule_sib):
     def never_sees_flagged(fn_qual):
         """A site inside a compression predicate that no rule applies to an is_auipc_jump mnemonic."""
         parts = fn_qual.split('.')
-        if relevant_factories is None or len(parts) < 2 or parts[0] != 'transform_compressible':
+        if len(parts) < 2 or parts[0] != 'transform_compressible':
             return False
+        if relevant_factories is None:
+            # which rules use this predicate is not known (the compression relation could not be lifted): no verdict
+            raise AnalysisError('R-auipc: the compression relation could not be lifted, so it is not known whether {} is ever applied to an is_auipc_jump item'.format(fn_qual))
         return not any(p_ in relevant_factories for p_ in parts[1:])
     # effective (position offset, post correction) for an is_auipc_jump item, per entry site
     entries = []          # (where, k, post, kind, node, fn, note)
